@@ -100,4 +100,12 @@ PROPS = {
         level_text="A simulated indexer performs 1-8 directory changes (new shard version by temp+rename, delete, set/unset tombstone sidecar of a compound shard) at fake-clock instants while 1-3 clients search/stream/list and fsnotify events are dropped, delayed up to 90 s, duplicated or turned into overflow errors. Checked: each answer equals exactly the documents of the repository versions in ONE shard-set snapshot that was published during the call (never two versions of a path, never a half-applied replace, each version complete); published snapshots only hold versions that were complete on disk, one per repository; no panic/corrupt result/crash count after the initial load; and within 61 simulated seconds after the last change (faults stopped) the loaded set equals the live repositories on disk and a search agrees.",
         level_note="Samples schedules/histories. Worker processes that die (e.g. SIGSEGV from a shard unmapped while in use) are re-run run-by-run and a reproducible death is a violation.",
     ),
+    "C23": dict(
+        group="search", level="exploration", rule=SCHED_RULE,
+        harnesses=[dict(name="C23", quick=12000, thorough=500000, quick_deadline_s=170, thorough_deadline_s=1500)],
+        components=S_COMPONENTS, assumptions=COMMON_ASSUME + ["claim limited to the isolation invariant on every response under concurrent mixed-tenant traffic; the query input space is sampled, not enumerated", "strict enforcement is switched on through internal/tenant/tenanttest.MockEnforce"],
+        technique="deterministic simulation: concurrent mixed-tenant Search/StreamSearch/List under seeded schedules over shards mixing tenants, with an isolation invariant evaluated on every response",
+        level_text="Strict tenant enforcement; 12 corpora whose compound shards mix repositories of tenants 1 and 2; 1-4 concurrent clients issue generated queries (repository filters, type:repo, content) as tenant 1, tenant 2, without tenant or as the system context. Every response is checked: no file match, list entry, ReposMap id, RepoURLs key/URL template or LineFragments key of a repository the caller does not own (nothing at all for a tenant-less caller); the caller's own results equal the per-shard reference restricted to its repositories; the system context sees everything.",
+        level_note="Samples schedules and queries on static shard sets.",
+    ),
 }
